@@ -12,7 +12,8 @@ history, two environments `a` and `b` are built around it and ALL sequences of l
 
     a.reset(k0) | b.reset(k1) | jit(a.reset)(k1) | a.step(s0,a0) | a.step(s1,a1) | b.step(t0,b0)   (eager unless marked jit)
 
-are run (L = 2; 3 in the thorough tier for cheap-eager families).  s0 / t0 = the reference reset states of a / b for
+are run (L = 2; generator entries use the first four calls and L = 3 in the thorough tier for cheap-eager
+families; shared reward functions and shared argument arrays use all six calls at L = 2).  s0 / t0 = the reference reset states of a / b for
 k0 / k1, a0 / b0 = the first action that keeps them alive, s1 = the reference successor of (s0, a0), a1 = the first
 action that keeps s1 alive or, if every action ends the episode there, the one with the smallest non-zero |reward|
 (the episode-completing one), so that a step that pays the final reward is part of the alphabet.
@@ -245,7 +246,9 @@ def run_history(e: Dict[str, Any], seq: Tuple[str, ...], exp: Dict[str, Any], ar
 def check_entry(entry: Dict[str, Any], tier: str, seed: int, model: str = "") -> Dict[str, Any]:
     t0 = time.time()
     e = entry
-    L = 3 if (tier == "thorough" and e["family"] not in SLOW_HISTORY) else 2
+    wide = e["name"].startswith("shared-reward") or e["share"] == "arguments"
+    # thorough: length 3 over the four-call alphabet (cheap-eager families); the six-call alphabet stays at length 2
+    L = 3 if (tier == "thorough" and e["family"] not in SLOW_HISTORY and not wide) else 2
     exp, args = _reference(e)
     viol: List[Violation] = []
     n_by: Dict[str, int] = {}
@@ -253,8 +256,7 @@ def check_entry(entry: Dict[str, Any], tier: str, seed: int, model: str = "") ->
     # slow-eager families (static table): the four-call alphabet without the second step of a and the step of b
     # quick tier: the six-call alphabet only where the second environment's step matters (shared reward functions,
     # shared argument arrays); otherwise the four-call alphabet
-    wide = e["name"].startswith("shared-reward") or e["share"] == "arguments"
-    calls = CALLS if (tier == "thorough" or wide) else CALLS[:4]
+    calls = CALLS if wide else CALLS[:4]
     seqs = list(itertools.product(calls, repeat=L))
     for seq in seqs:
         n, bad = run_history(e, seq, exp, args)
